@@ -339,7 +339,13 @@ func (g *Gen) resetCheck(o *Occ) {
 			if s.Leaf.Ptr {
 				z = "(" + x + " == nil)"
 			}
-			w(`{ v, _ := tf.Attrs[%q].(%s); if v.Null || v.Unknown { vrt.Assert("C05/"+path+"/%s:reset", %s%s) } }`, n, g.tfv(s.Leaf.TFVal), n, embOr, z)
+			w(`{ v, _ := tf.Attrs[%q].(%s); if v.Null || v.Unknown { vrt.Assert("C05/"+path+"/%s:reset", %s%s) } else {`, n, g.tfv(s.Leaf.TFVal), n, embOr, z)
+			// C02: reading a known value changes exactly the field this attribute is named after
+			if s.Leaf.Ptr {
+				w(`  vrt.Assert("C02/"+path+"/%s:field-carries-its-attribute", %s%s != nil && %s) } }`, n, embAnd, x, leafEq(s.Leaf, "*"+x, g.fromTF(s.Leaf, "v.Value")))
+			} else {
+				w(`  vrt.Assert("C02/"+path+"/%s:field-carries-its-attribute", %s%s) } }`, n, embAnd, leafEq(s.Leaf, x, g.fromTF(s.Leaf, "v.Value")))
+			}
 		case SList, SMap:
 			ct := "types.List"
 			if s.Kind == SMap {
